@@ -243,7 +243,16 @@ pub fn owns_memory_errors(prop: &str) -> bool {
 }
 
 fn spawn_worker(bin: &str, prop: &str, tier: &str, cfg: &CheckConfig, start: u64, step: u64, end: u64, idx: usize, tx: &mpsc::Sender<Msg>, stderr_path: Option<&str>) -> std::process::Child {
-    let mut cmd = Command::new(bin);
+    // Workers other than the sanitizer ones (which reserve terabytes of address space) run under an address-space limit
+    // of 32 GiB - two orders of magnitude above what a batch needs - so that a runaway allocation ends one worker (seen as
+    // a hard crash of the seed in progress) instead of inviting the kernel's out-of-memory killer to pick a victim.
+    let mut cmd = if stderr_path.is_none() {
+        let mut c = Command::new("sh");
+        c.args(["-c", "ulimit -v 33554432 2>/dev/null; exec \"$0\" \"$@\"", bin]);
+        c
+    } else {
+        Command::new(bin)
+    };
     cmd.args(["worker", prop, tier, &cfg.batch_seed.to_string(), &start.to_string(), &step.to_string(), &end.to_string(), &cfg.max_s.to_string()])
         .stdout(Stdio::piped());
     match stderr_path.and_then(|p| std::fs::File::create(p).ok()) {
